@@ -163,13 +163,20 @@ func c03Encodable(c *Ctx) {
 			"the stored servers (plus one for the :: wildcard) were encoded as one RDNSS option and the encoding succeeded", "an RDNSS stanza with too many servers for one option is accepted: the first RA cannot be sent and the daemon exits")
 	}
 	// captive portal: the plugin is appended only where the trial encoding of its option succeeded
-	if pp := c.needFunc("R-C03-6", "internal/config", "parsePlugins"); pp != nil {
+	// (in parsePlugins, or in whichever function of package config builds the plugin)
+	pp := c.needFunc("R-C03-6", "internal/config", "parsePlugins")
+	if pp != nil {
 		var mk ssa.CallInstruction
-		for _, ci := range an.CallsIn(pp) {
-			if an.CallIs(ci.Common(), PkgPlugin, "", "NewCaptivePortal") {
-				mk = ci
+		host := pp
+		for _, f := range fnsInPkgs(c, "internal/config") {
+			for _, ci := range an.CallsIn(f) {
+				if an.CallIs(ci.Common(), PkgPlugin, "", "NewCaptivePortal") {
+					mk = ci
+					host = f
+				}
 			}
 		}
+		pp = host
 		fact, ok := "no call of plugin.NewCaptivePortal", false
 		if mk != nil {
 			fact = "the captive-portal plugin is used without a successful trial encoding of its option"
